@@ -1,8 +1,10 @@
 import DeepModel.Props.C03
 #print axioms C03.c03_line_iff
 #print axioms C03.c03_func_iff
-#print axioms C03.c03_kinds
-#print axioms C03.c03_not_on_return_exception
+#print axioms C03.c03_kinds_partial
+#print axioms C03.c03_nameless_witness
+#print axioms C03.c03_run_faithful_partial
+#print axioms C03.c03_not_on_return_exception_partial
 #print axioms C03.c03_exact
 #print axioms C03.c03_only_if
 #print axioms C03.c03_if
